@@ -43,7 +43,10 @@ def symbolize(model, prefix_filter=None, tag_units=True):
     """replace every numeric Parameter / OutputParameter value of the four core components by proxies and every unit by a tag.
     Returns vals: name -> proxy / list of proxies."""
     vals = {}
-    for cn in ('reserv', 'wellbores', 'surfaceplant', 'economics'):
+    comps = ['reserv', 'wellbores', 'surfaceplant', 'economics']
+    if getattr(model, 'sdacgteconomics', None) is not None:
+        comps.append('sdacgteconomics')
+    for cn in comps:
         comp = getattr(model, cn)
         for an, p in list(vars(comp).items()):
             if not gx.is_param(p) or an in SKIP_ATTRS:
@@ -90,15 +93,44 @@ def run_writer(model):
     cap = Capture()
     binds = [(O, 'open', lambda *a, **k: cap), (O, 'np', shim.NP), (O, 'print_outputs_rich', lambda *a, **k: None), (O, 'round', shim.sround),
              (O.Outputs, '_convert_units', lambda self, model: None), (O, 'sum', _sum)]
+    if getattr(model, 'sdacgtoutputs', None) is not None and model.economics.DoSDACGTCalculations.value:
+        from geophires_x import OutputsS_DAC_GT as OS
+        binds += [(OS, 'open', lambda *a, **k: cap), (OS, 'pd', _PD)]
     with shim.shadow(*binds):
         try:
             model.outputs.PrintOutputs(model)
+            if getattr(model, 'sdacgtoutputs', None) is not None and model.economics.DoSDACGTCalculations.value:
+                model.sdacgtoutputs.PrintOutputs(model)       # what print_outputs_rich (shadowed above) calls for this section of the text report
         except RuntimeError as e:
             cause = e.__cause__
             if isinstance(cause, (core.PathAbort, core.Realize)):
                 raise cause
+            if e.args and isinstance(e.args[-1], (core.PathAbort, core.Realize)):
+                raise e.args[-1]
             raise
     return cap.text
+
+
+def print_sections(model):
+    """concrete replays: the optional sections that print_outputs_rich (shadowed in the replays) appends to the text report."""
+    if getattr(model, 'sdacgtoutputs', None) is not None and model.economics.DoSDACGTCalculations.value:
+        model.sdacgtoutputs.output_file = model.outputs.output_file
+        with shim.shadow((O.Outputs, '_convert_units', lambda self, model: None)):
+            model.sdacgtoutputs.PrintOutputs(model)
+
+
+class _DF(dict):
+    """stand-in for the pandas DataFrame the section writers fill for the rich output (the text report does not read it)."""
+
+    def reset_index(self, *a, **k):
+        return self
+
+    def __getattr__(self, k):
+        return lambda *a, **kw: self
+
+
+class _PD:
+    DataFrame = _DF
 
 
 def _sum(xs, *a):
